@@ -435,19 +435,19 @@ def judge_stream(stream, role_is_server, require_masked=True, accept_masked=Fals
                 return viol("protocol", "data-inside-message", i)
             if in_msg and rsv == 4:
                 return viol("protocol", "rsv-on-continuation", i)
+        # the length rules are judged once the complete header (extended length and mask key)
+        # is present - a header cut short is "incomplete", not yet a violation
+        hdr_len = 2 + (2 if l1 == 126 else 8 if l1 == 127 else 0) + (4 if masked else 0)
+        if n - i < hdr_len:
+            v.incomplete = True
+            return v
         j = i + 2
         if l1 == 126:
-            if n - j < 2:
-                v.incomplete = True
-                return v
             ln = struct.unpack("!H", buf[j:j + 2])[0]
             j += 2
             if ln < 126:
                 return viol("protocol", "non-minimal-16", i)
         elif l1 == 127:
-            if n - j < 8:
-                v.incomplete = True
-                return v
             ln = struct.unpack("!Q", buf[j:j + 8])[0]
             j += 8
             if ln > 0x7FFFFFFFFFFFFFFF:
@@ -458,9 +458,6 @@ def judge_stream(stream, role_is_server, require_masked=True, accept_masked=Fals
             ln = l1
         key = None
         if masked:
-            if n - j < 4:
-                v.incomplete = True
-                return v
             key = buf[j:j + 4]
             j += 4
         avail = n - j
@@ -469,12 +466,16 @@ def judge_stream(stream, role_is_server, require_masked=True, accept_masked=Fals
             part = buf[j:n]
             if key is not None:
                 part = xor_mask(part, key)
-            if op <= 7 and validate_utf8 and not msg_comp and ((in_msg and not msg_bin) or (not in_msg and op == 1)) \
-                    and not (not in_msg and rsv == 4):
-                sofar = (b"".join(msg_parts) if in_msg else b"") + part
-                ok, okp = utf8_first_error(sofar)
-                if not ok and not okp:
-                    return viol("payload", "invalid-utf8", i)
+            if op <= 7 and validate_utf8:
+                if in_msg:
+                    is_text, is_comp = (not msg_bin), msg_comp
+                else:
+                    is_text, is_comp = (op == 1), (rsv == 4)
+                if is_text and not is_comp:
+                    sofar = (b"".join(msg_parts) if in_msg else b"") + part
+                    ok, okp = utf8_first_error(sofar)
+                    if not ok and not okp:
+                        return viol("payload", "invalid-utf8", i)
             v.incomplete = True
             return v
         payload = buf[j:j + ln]
@@ -533,6 +534,7 @@ def judge_stream(stream, role_is_server, require_masked=True, accept_masked=Fals
             v.deliveries.append(("msg", data, msg_bin))
             in_msg = False
             msg_parts = None
+            msg_comp = False
     if in_msg:
         v.incomplete = True
     return v
